@@ -3,7 +3,7 @@
     every span it attaches (and the [ParseError] span) is where the construct starts and ends in
     the input -- for any text, accepted or not, not only for printed grammars. *)
 From CG Require Import Base.Prelude Model.Ast Model.Lexer Model.Parser Spec.Printer Spec.Spans
-  Proofs.LexBase Proofs.LexBlanks.
+  Proofs.LexBase Proofs.LexBlanks Proofs.LexTerminal.
 From CGgen Require Import Consts.
 
 Lemma adv_refl : forall i, adv i i.
@@ -276,19 +276,62 @@ Proof.
   - destruct Hs; auto.
 Qed.
 
+(** *** strictness: every construct has at least one byte *)
+
+Definition ilen (i : input) : nat := String.length (rest i).
+
+Lemma adv_ilen : forall i i', adv i i' -> (ilen i' <= ilen i)%nat.
+Proof. intros i i' (w & E & _). unfold ilen. rewrite E, length_app_s. lia. Qed.
+
+Lemma adv1_intro : forall i i', adv i i' -> (ilen i' < ilen i)%nat -> adv1 i i'.
+Proof.
+  intros i i' (w & E & P) L. exists w. repeat split; auto. intros ->. unfold ilen in L. rewrite E in L. cbn in L. lia.
+Qed.
+
+Lemma adv1_adv : forall i i', adv1 i i' -> adv i i'.
+Proof. intros i i' (w & _ & E & P). exists w. auto. Qed.
+
+Lemma adv1_ilen : forall i i', adv1 i i' -> (ilen i' < ilen i)%nat.
+Proof.
+  intros i i' (w & N & E & _). unfold ilen. rewrite E, length_app_s. destruct w; [congruence|]. cbn. lia.
+Qed.
+
+Lemma char_p_strict : forall c i x i', char_p c i = Ok (x, i') -> (ilen i' < ilen i)%nat.
+Proof.
+  intros c [s q] x i' H. unfold char_p in H. cbn [rest at_] in H. destruct s as [|d r]; [discriminate|].
+  destruct (Ascii.eqb d c); [|discriminate]. inversion H; subst. unfold ilen. cbn. lia.
+Qed.
+
+Lemma tag_p_strict : forall t i x i', t <> EmptyString -> tag_p t i = Ok (x, i') -> (ilen i' < ilen i)%nat.
+Proof.
+  intros t [s q] x i' Ht H. unfold tag_p in H. cbn [rest at_] in H.
+  destruct (strip_prefix t s) as [r|] eqn:E; [|discriminate]. inversion H; subst.
+  apply strip_prefix_app in E. subst s. unfold ilen. cbn [rest]. rewrite length_app_s. destruct t; [congruence|]. cbn. lia.
+Qed.
+
+Lemma take_while1_strict : forall p i x i', take_while1 p i = Ok (x, i') -> (ilen i' < ilen i)%nat.
+Proof.
+  intros p [s q] x i' H. unfold take_while1, take_while in H. cbn [rest at_] in H.
+  destruct (span_while p s) as [a b] eqn:E. destruct a; [discriminate|]. inversion H; subst.
+  unfold ilen. cbn [rest]. rewrite (span_while_len _ _ _ _ E). cbn. lia.
+Qed.
+
 Section Sound.
   Variable s : string.
 
   Definition GoodP (p : input -> pres expr) : Prop :=
-    forall i e i', at_pre s i -> p i = Ok (e, i') -> adv i i' /\ spans_ok s e.
+    forall i e i', at_pre s i -> p i = Ok (e, i') -> adv1 i i' /\ spans_ok s e.
 
-  Lemma span_from_range : forall i i', at_pre s i -> adv i i' -> span_ok s (from_range i i').
+  Lemma span_from_range : forall i i', at_pre s i -> adv1 i i' -> span_ok s (from_range i i').
   Proof. intros. exists i, i'. auto. Qed.
 
   Lemma good_terminal : GoodP (terminal_opt_description_expr repaired).
   Proof.
     intros i e i' P H. unfold terminal_opt_description_expr in H. dobind H. dobind H. inversion H; subst.
-    assert (A : adv i i') by (eapply adv_trans; [eapply terminal_adv; eauto|eapply opt_description_adv; eauto]).
+    pose proof (terminal_adv _ _ _ E) as A1. pose proof (opt_description_adv _ _ _ E0) as A2.
+    assert (A : adv1 i i').
+    { apply adv1_intro; [eapply adv_trans; eauto|]. pose proof (terminal_consumes _ _ _ _ E). pose proof (adv_ilen _ _ A2).
+      unfold ilen in *. lia. }
     split; auto. cbn [spans_ok]. apply span_from_range; auto.
   Qed.
 
@@ -299,16 +342,31 @@ Section Sound.
     eapply adv_trans; [eapply take_while1_adv; eauto|eapply char_p_adv; eauto].
   Qed.
 
+  Lemma nonterm_adv1 : forall i x i', nonterm i = Ok (x, i') -> adv1 i i'.
+  Proof.
+    intros i x i' H. apply adv1_intro; [eapply nonterm_adv; eauto|].
+    unfold nonterm in H. dobind H. dobind H. dobind H. inversion H; subst.
+    pose proof (char_p_strict _ _ _ _ E). pose proof (take_while1_strict _ _ _ _ E0). pose proof (char_p_strict _ _ _ _ E1). lia.
+  Qed.
+
   Lemma good_nonterm : GoodP nonterm_expr.
   Proof.
     intros i e i' P H. unfold nonterm_expr in H. dobind H. inversion H; subst.
-    pose proof (nonterm_adv _ _ _ E) as A. split; auto. cbn [spans_ok]. apply span_from_range; auto.
+    pose proof (nonterm_adv1 _ _ _ E) as A. split; auto. cbn [spans_ok]. apply span_from_range; auto.
+  Qed.
+
+  Lemma command_adv1 : forall i x i', triple_bracket_command i = Ok (x, i') -> adv1 i i'.
+  Proof.
+    intros i x i' H. apply adv1_intro; [eapply triple_bracket_command_adv; eauto|].
+    unfold triple_bracket_command in H. dobind H. dobind H. dobind H. inversion H; subst.
+    pose proof (tag_p_strict "{{{" _ _ _ ltac:(discriminate) E). pose proof (adv_ilen _ _ (take_until_adv _ _ _ _ E0)).
+    pose proof (tag_p_strict "}}}" _ _ _ ltac:(discriminate) E1). lia.
   Qed.
 
   Lemma good_command : GoodP command_expr.
   Proof.
     intros i e i' P H. unfold command_expr in H. dobind H. inversion H; subst.
-    pose proof (triple_bracket_command_adv _ _ _ E) as A. split; auto. cbn [spans_ok]. apply span_from_range; auto.
+    pose proof (command_adv1 _ _ _ E) as A. split; auto. cbn [spans_ok]. apply span_from_range; auto.
   Qed.
 
   Lemma good_optional : forall ex, GoodP ex -> GoodP (optional_expr ex).
@@ -317,9 +375,12 @@ Section Sound.
     inversion H; subst.
     pose proof (char_p_adv _ _ _ _ E) as A1. pose proof (multiblanks0_adv _ _ _ E0) as A2.
     assert (P2 : at_pre s i1) by (eapply at_pre_adv; [|exact A2]; eapply at_pre_adv; eauto).
-    destruct (G _ _ _ P2 E1) as [A3 S3].
+    destruct (G _ _ _ P2 E1) as [A3 S3]. apply adv1_adv in A3.
     pose proof (multiblanks0_adv _ _ _ E2) as A4. pose proof (char_p_adv _ _ _ _ E3) as A5.
-    assert (A : adv i i') by exact (adv_trans _ _ _ A1 (adv_trans _ _ _ A2 (adv_trans _ _ _ A3 (adv_trans _ _ _ A4 A5)))).
+    assert (A : adv1 i i').
+    { apply adv1_intro; [exact (adv_trans _ _ _ A1 (adv_trans _ _ _ A2 (adv_trans _ _ _ A3 (adv_trans _ _ _ A4 A5))))|].
+      pose proof (char_p_strict _ _ _ _ E). pose proof (adv_ilen _ _ A2). pose proof (adv_ilen _ _ A3).
+      pose proof (adv_ilen _ _ A4). pose proof (adv_ilen _ _ A5). lia. }
     split; auto. cbn [spans_ok]. split; auto. apply span_from_range; auto.
   Qed.
 
@@ -329,15 +390,29 @@ Section Sound.
     inversion H; subst.
     pose proof (char_p_adv _ _ _ _ E) as A1. pose proof (multiblanks0_adv _ _ _ E0) as A2.
     assert (P2 : at_pre s i1) by (eapply at_pre_adv; [|exact A2]; eapply at_pre_adv; eauto).
-    destruct (G _ _ _ P2 E1) as [A3 S3].
+    destruct (G _ _ _ P2 E1) as [A3 S3]. apply adv1_adv in A3.
     pose proof (multiblanks0_adv _ _ _ E2) as A4. pose proof (char_p_adv _ _ _ _ E3) as A5.
-    split; auto. exact (adv_trans _ _ _ A1 (adv_trans _ _ _ A2 (adv_trans _ _ _ A3 (adv_trans _ _ _ A4 A5)))).
+    split; auto. apply adv1_intro; [exact (adv_trans _ _ _ A1 (adv_trans _ _ _ A2 (adv_trans _ _ _ A3 (adv_trans _ _ _ A4 A5))))|].
+    pose proof (char_p_strict _ _ _ _ E). pose proof (adv_ilen _ _ A2). pose proof (adv_ilen _ _ A3).
+    pose proof (adv_ilen _ _ A4). pose proof (adv_ilen _ _ A5). lia.
+  Qed.
+
+  Lemma adv1_adv_trans : forall a b c, adv1 a b -> adv b c -> adv1 a c.
+  Proof.
+    intros a b c H1 H2. apply adv1_intro; [eapply adv_trans; [apply adv1_adv|]; eauto|].
+    pose proof (adv1_ilen _ _ H1). pose proof (adv_ilen _ _ H2). lia.
+  Qed.
+
+  Lemma adv_adv1_trans : forall a b c, adv a b -> adv1 b c -> adv1 a c.
+  Proof.
+    intros a b c H1 H2. apply adv1_intro; [eapply adv_trans; [|apply adv1_adv]; eauto|].
+    pose proof (adv1_ilen _ _ H2). pose proof (adv_ilen _ _ H1). lia.
   Qed.
 
   Lemma good_unary : forall ex, GoodP ex -> GoodP (unary_expr repaired ex).
   Proof.
     intros ex G i e i' P H. unfold unary_expr in H. dobind H.
-    assert (X : adv i i0 /\ spans_ok s e0).
+    assert (X : adv1 i i0 /\ spans_ok s e0).
     { destruct (nonterm_expr i) as [[a j]| | |] eqn:N; try discriminate E.
       { inversion E; subst. eapply good_nonterm; eauto. }
       destruct (optional_expr ex i) as [[a j]| | |] eqn:O; try discriminate E.
@@ -349,7 +424,7 @@ Section Sound.
       eapply good_terminal; eauto. }
     destruct X as [A1 S1].
     destruct (many1_tag i0) as [[u j]| | |] eqn:T; try discriminate H; inversion H; subst.
-    - pose proof (many1_tag_adv _ _ _ T) as A2. assert (A : adv i i') by (eapply adv_trans; eauto).
+    - pose proof (many1_tag_adv _ _ _ T) as A2. assert (A : adv1 i i') by (eapply adv1_adv_trans; eauto).
       split; auto. cbn [spans_ok]. split; auto. apply span_from_range; auto.
     - split; auto.
   Qed.
@@ -359,18 +434,18 @@ Section Sound.
   Proof.
     intros step G. induction k; intros i l i' P H; [discriminate|]. cbn [loop_p] in H.
     destruct (step i) as [[a i1]| | |] eqn:E; try discriminate H.
-    - dobind H. inversion H; subst. destruct (G _ _ _ P E) as [A1 S1].
+    - dobind H. inversion H; subst. destruct (G _ _ _ P E) as [A1 S1]. apply adv1_adv in A1.
       destruct (IHk _ _ _ (at_pre_adv _ _ _ P A1) E0) as [A2 S2].
       split; [eapply adv_trans; eauto|]. cbn. split; auto.
-    - inversion H; subst. split; [apply adv_refl|exact I].
+    - inversion H; subst. split; [apply adv_refl|exact Logic.I].
   Qed.
 
   Lemma good_subword : forall k u, GoodP u -> GoodP (subword_sequence_expr k u).
   Proof.
     intros k u G i e i' P H. unfold subword_sequence_expr in H. dobind H. dobind H.
     destruct (G _ _ _ P E) as [A1 S1].
-    destruct (good_loop u G _ _ _ _ (at_pre_adv _ _ _ P A1) E0) as [A2 S2].
-    assert (A : adv i i1) by (eapply adv_trans; eauto).
+    destruct (good_loop u G _ _ _ _ (at_pre_adv _ _ _ P (adv1_adv _ _ A1)) E0) as [A2 S2].
+    assert (A : adv1 i i1) by (eapply adv1_adv_trans; eauto).
     destruct l as [|m more]; inversion H; subst; [split; auto|].
     split; auto.
     assert (Hsub : forall l sp1 lv sp2, span_ok s sp2 -> span_ok s sp1 -> all_ok s l ->
@@ -387,7 +462,7 @@ Section Sound.
     destruct (good_subword k u G _ _ _ P E) as [A1 S1].
     pose proof (opt_description_adv _ _ _ E0) as A2.
     destruct o; inversion H; subst.
-    - assert (A : adv i i') by (eapply adv_trans; eauto). split; auto. cbn [spans_ok]. split; auto.
+    - assert (A : adv1 i i') by (eapply adv1_adv_trans; eauto). split; auto. cbn [spans_ok]. split; auto.
       apply span_from_range; auto.
     - split; auto.
   Qed.
@@ -404,8 +479,8 @@ Section Sound.
   Proof.
     intros mk k first step Hmk G1 G2 i e i' P H. cbv beta in H. dobind H. dobind H.
     destruct (G1 _ _ _ P E) as [A1 S1].
-    destruct (good_loop step G2 _ _ _ _ (at_pre_adv _ _ _ P A1) E0) as [A2 S2].
-    assert (A : adv i i1) by (eapply adv_trans; eauto).
+    destruct (good_loop step G2 _ _ _ _ (at_pre_adv _ _ _ P (adv1_adv _ _ A1)) E0) as [A2 S2].
+    assert (A : adv1 i i1) by (eapply adv1_adv_trans; eauto).
     destruct l as [|m more]; inversion H; subst; [split; auto|].
     split; auto. apply Hmk. split; [apply span_from_range; auto|]. cbn. cbn in S2. tauto.
   Qed.
@@ -416,7 +491,7 @@ Section Sound.
     apply (good_nary Sequence k item (fun j => do (_, j1) <- multiblanks1 j; item j1)); auto.
     - intros. cbn [spans_ok]. reflexivity.
     - intros i e i' P H. dobind H. pose proof (multiblanks1_adv _ _ _ E) as A1.
-      destruct (G _ _ _ (at_pre_adv _ _ _ P A1) H) as [A2 S2]. split; auto. eapply adv_trans; eauto.
+      destruct (G _ _ _ (at_pre_adv _ _ _ P A1) H) as [A2 S2]. split; auto. eapply adv_adv1_trans; eauto.
   Qed.
 
   Lemma good_alternative : forall k sq, GoodP sq -> GoodP (alternative_expr k sq).
@@ -428,7 +503,7 @@ Section Sound.
       pose proof (multiblanks0_adv _ _ _ E) as A1. pose proof (char_p_adv _ _ _ _ E0) as A2.
       pose proof (multiblanks0_adv _ _ _ E1) as A3.
       assert (A : adv i i2) by (eapply adv_trans; [eauto|]; eapply adv_trans; eauto).
-      destruct (G _ _ _ (at_pre_adv _ _ _ P A) H) as [A4 S4]. split; auto. eapply adv_trans; eauto.
+      destruct (G _ _ _ (at_pre_adv _ _ _ P A) H) as [A4 S4]. split; auto. eapply adv_adv1_trans; eauto.
   Qed.
 
   Lemma good_fallback : forall k al, GoodP al -> GoodP (fallback_expr k al).
@@ -440,7 +515,7 @@ Section Sound.
       pose proof (multiblanks0_adv _ _ _ E) as A1. pose proof (tag_p_adv _ _ _ _ E0) as A2.
       pose proof (multiblanks0_adv _ _ _ E1) as A3.
       assert (A : adv i i2) by (eapply adv_trans; [eauto|]; eapply adv_trans; eauto).
-      destruct (G _ _ _ (at_pre_adv _ _ _ P A) H) as [A4 S4]. split; auto. eapply adv_trans; eauto.
+      destruct (G _ _ _ (at_pre_adv _ _ _ P A) H) as [A4 S4]. split; auto. eapply adv_adv1_trans; eauto.
   Qed.
 
   Theorem good_expr : forall n, GoodP (expr_p repaired n).
@@ -457,20 +532,21 @@ Section SoundStmt.
   Variable n : nat.
 
   Lemma call_variant_good : forall i st i', at_pre s i ->
-      call_variant repaired (expr_p repaired n) i = Ok (st, i') -> adv i i' /\ stmt_ok s st.
+      call_variant repaired (expr_p repaired n) i = Ok (st, i') -> adv1 i i' /\ stmt_ok s st.
   Proof.
     intros i st i' P H. unfold call_variant in H. dobind H. dobind H. dobind H. dobind H. dobind H.
     inversion H; subst.
     pose proof (terminal_adv _ _ _ E) as A1. pose proof (multiblanks1_adv _ _ _ E0) as A2.
+    assert (T1 : adv1 i i0) by (apply adv1_intro; auto; apply (terminal_consumes _ _ _ _ E)).
     assert (P2 : at_pre s i1) by (eapply at_pre_adv; [|exact A2]; eapply at_pre_adv; eauto).
-    destruct (good_expr s n _ _ _ P2 E1) as [A3 S3].
+    destruct (good_expr s n _ _ _ P2 E1) as [A3 S3]. apply adv1_adv in A3.
     pose proof (multiblanks0_adv _ _ _ E2) as A4. pose proof (end_of_statement_adv _ _ _ E3) as A5.
-    split; [exact (adv_trans _ _ _ A1 (adv_trans _ _ _ A2 (adv_trans _ _ _ A3 (adv_trans _ _ _ A4 A5))))|].
+    split; [eapply adv1_adv_trans; [exact T1|]; exact (adv_trans _ _ _ A2 (adv_trans _ _ _ A3 (adv_trans _ _ _ A4 A5)))|].
     cbn [stmt_ok]. split; auto. apply span_from_range; auto.
   Qed.
 
   Lemma nonterm_def_good : forall i hd i', at_pre s i -> nonterm_def i = Ok (hd, i') ->
-      adv i i' /\ span_ok s (snd (fst hd))
+      adv1 i i' /\ span_ok s (snd (fst hd))
       /\ match snd hd with Some (_, ssp) => span_ok s ssp | None => True end.
   Proof.
     intros i hd i' P H. unfold nonterm_def in H.
@@ -481,17 +557,21 @@ Section SoundStmt.
       pose proof (char_p_adv _ _ _ _ E1) as A3. pose proof (take_while1_adv _ _ _ _ E2) as A4.
       pose proof (char_p_adv _ _ _ _ E3) as A5.
       assert (A13 : adv i i2) by exact (adv_trans _ _ _ A1 (adv_trans _ _ _ A2 A3)).
-      assert (A : adv i i') by exact (adv_trans _ _ _ A13 (adv_trans _ _ _ A4 A5)).
+      assert (A : adv1 i i').
+      { apply adv1_intro; [exact (adv_trans _ _ _ A13 (adv_trans _ _ _ A4 A5))|].
+        pose proof (char_p_strict _ _ _ _ E). pose proof (adv_ilen _ _ A2). pose proof (adv_ilen _ _ A3).
+        pose proof (adv_ilen _ _ A4). pose proof (adv_ilen _ _ A5). lia. }
       cbn [fst snd]. repeat split; auto.
       + apply span_from_range; auto.
-      + apply span_from_range; auto. eapply at_pre_adv; eauto.
+      + apply span_from_range; [eapply at_pre_adv; eauto|].
+        apply adv1_intro; auto. apply (take_while1_strict _ _ _ _ E2).
     - destruct (nonterm i) as [[[nm nsp] j]| | |] eqn:N; try discriminate H. inversion H; subst.
-      pose proof (nonterm_adv _ _ _ N) as A. cbn [fst snd]. repeat split; auto.
+      pose proof (nonterm_adv1 _ _ _ N) as A. cbn [fst snd]. repeat split; auto.
       unfold nonterm in N. dobind N. dobind N. dobind N. inversion N; subst. apply span_from_range; auto.
   Qed.
 
   Lemma nonterm_def_statement_good : forall i st i', at_pre s i ->
-      nonterm_def_statement (expr_p repaired n) i = Ok (st, i') -> adv i i' /\ stmt_ok s st.
+      nonterm_def_statement (expr_p repaired n) i = Ok (st, i') -> adv1 i i' /\ stmt_ok s st.
   Proof.
     intros i st i' P H. unfold nonterm_def_statement in H. dobind H. dobind H. dobind H. dobind H. dobind H.
     dobind H. dobind H. destruct p as [[nm nsp] sh]. inversion H; subst.
@@ -504,42 +584,43 @@ Section SoundStmt.
     pose proof (multiblanks0_adv _ _ _ E2) as A4.
     assert (P4 : at_pre s i3).
     { eapply at_pre_adv; [|exact A4]. eapply at_pre_adv; [|exact A3]. eapply at_pre_adv; [|exact A2].
-      eapply at_pre_adv; eauto. }
-    destruct (good_expr s n _ _ _ P4 E3) as [A5 S5].
+      eapply at_pre_adv; [exact P|apply adv1_adv; exact A1]. }
+    destruct (good_expr s n _ _ _ P4 E3) as [A5 S5]. apply adv1_adv in A5.
     pose proof (multiblanks0_adv _ _ _ E4) as A6. pose proof (end_of_statement_adv _ _ _ E5) as A7.
     split.
-    - exact (adv_trans _ _ _ A1 (adv_trans _ _ _ A2 (adv_trans _ _ _ A3 (adv_trans _ _ _ A4
-               (adv_trans _ _ _ A5 (adv_trans _ _ _ A6 A7)))))).
+    - eapply adv1_adv_trans; [exact A1|].
+      exact (adv_trans _ _ _ A2 (adv_trans _ _ _ A3 (adv_trans _ _ _ A4 (adv_trans _ _ _ A5 (adv_trans _ _ _ A6 A7))))).
     - cbn [stmt_ok]. repeat split; auto.
   Qed.
 
   Lemma statement_good : forall i st i', at_pre s i ->
-      statement_p repaired (expr_p repaired n) i = Ok (st, i') -> adv i i' /\ stmt_ok s st.
+      statement_p repaired (expr_p repaired n) i = Ok (st, i') -> adv1 i i' /\ stmt_ok s st.
   Proof.
     intros i st i' P H. unfold statement_p in H. dobind H. dobind H. inversion H; subst.
     pose proof (multiblanks0_adv _ _ _ E0) as A2.
-    assert (X : adv i i0 /\ stmt_ok s st).
+    assert (X : adv1 i i0 /\ stmt_ok s st).
     { destruct (call_variant repaired (expr_p repaired n) i) as [[a j]| | |] eqn:C; try discriminate E.
       - inversion E; subst. eapply call_variant_good; eauto.
       - eapply nonterm_def_statement_good; eauto. }
-    destruct X as [A1 S1]. split; auto. eapply adv_trans; eauto.
+    destruct X as [A1 S1]. split; auto. eapply adv1_adv_trans; eauto.
   Qed.
 
   Lemma many0_good : forall k i,
       at_pre s i ->
       match many0_p k (statement_p repaired (expr_p repaired n)) i with
       | Ok (l, i') => adv i i' /\ Forall (stmt_ok s) l
-      | Err e => at_pre s e
+      | Err e => False
       | _ => True
       end.
   Proof.
     induction k; intros i P; cbn [many0_p]; auto.
     destruct (statement_p repaired (expr_p repaired n) i) as [[st i1]| | |] eqn:E; auto.
     - destruct (statement_good _ _ _ P E) as [A1 S1].
-      destruct (Nat.eqb _ _); [exact P|].
-      specialize (IHk i1 (at_pre_adv _ _ _ P A1)).
+      pose proof (adv1_ilen _ _ A1) as L. unfold ilen in L.
+      destruct (Nat.eqb _ _) eqn:Q; [apply Nat.eqb_eq in Q; lia|].
+      specialize (IHk i1 (at_pre_adv _ _ _ P (adv1_adv _ _ A1))).
       destruct (many0_p k _ i1) as [[l i2]| | |]; auto.
-      destruct IHk as [A2 S2]. split; [eapply adv_trans; eauto|constructor; auto].
+      destruct IHk as [A2 S2]. split; [eapply adv_trans; [apply adv1_adv|]; eauto|constructor; auto].
     - split; [apply adv_refl|constructor].
   Qed.
 End SoundStmt.
@@ -552,23 +633,25 @@ Proof.
   rewrite multiblanks0_spec in H.
   pose proof (many0_good s (S (S (String.length s))) (S (S (String.length s))) (skip (start s))
                 (at_pre_adv _ _ _ (at_pre_start s) (skip_adv _))) as X.
-  destruct (many0_p _ _ (skip (start s))) as [[l i2]| | |]; try discriminate H.
+  destruct (many0_p _ _ (skip (start s))) as [[l i2]| | |]; try discriminate H; try contradiction.
   rewrite multiblanks0_spec in H. destruct X as [_ X].
   destruct (rest (skip i2)); [|discriminate]. inversion H; subst. exact X.
 Qed.
 
+(** the [ParseError] span is the position of a byte of the text: the first one that is not part of
+    a statement (or of the blanks after the last one) *)
 Theorem parse_error_sound : forall s sp, parse_with repaired s = Err sp ->
-    exists pre rest, s = append pre rest /\ sp = from_machine (mkin rest (adv_str pre pos0)).
+    exists pre rest, s = append pre rest /\ rest <> EmptyString
+                     /\ sp = from_machine (mkin rest (adv_str pre pos0)).
 Proof.
   intros s sp H. unfold parse_with, grammar_p in H.
   rewrite multiblanks0_spec in H.
   assert (P0 : at_pre s (skip (start s))) by (eapply at_pre_adv; [apply at_pre_start|apply skip_adv]).
   pose proof (many0_good s (S (S (String.length s))) (S (S (String.length s))) (skip (start s)) P0) as X.
-  assert (Fin : forall i, at_pre s i -> exists pre rest, s = append pre rest /\ from_machine i = from_machine (mkin rest (adv_str pre pos0))).
-  { intros [r q] (pre & E & Q). cbn [rest at_] in *. exists pre, r. split; auto. rewrite Q. reflexivity. }
-  destruct (many0_p _ _ (skip (start s))) as [[l i2]|e| |]; try discriminate H.
-  - rewrite multiblanks0_spec in H. destruct X as [A _].
-    destruct (rest (skip i2)) eqn:R; [discriminate|]. inversion H; subst.
-    apply Fin. eapply at_pre_adv; [|apply skip_adv]. eapply at_pre_adv; eauto.
-  - inversion H; subst. apply Fin. exact X.
+  destruct (many0_p _ _ (skip (start s))) as [[l i2]|e| |]; try discriminate H; try contradiction.
+  rewrite multiblanks0_spec in H. destruct X as [A _].
+  assert (P2 : at_pre s (skip i2)) by (eapply at_pre_adv; [|apply skip_adv]; eapply at_pre_adv; eauto).
+  destruct (skip i2) as [r q] eqn:Sk. cbn [rest] in H. destruct r as [|ch r]; [discriminate|]. inversion H; subst.
+  destruct P2 as (pre & E & Q). cbn [rest at_] in *. exists pre, (String ch r). repeat split; auto; [discriminate|].
+  rewrite Q. reflexivity.
 Qed.
